@@ -811,3 +811,146 @@ func init() {
 		return bad, "single-run clauses only (cross-run comparisons need the full check): " + msg
 	}
 }
+
+// ---------- concurrent callers of the workflows ----------
+
+// runConcurrentGroup runs the scenarios of one group at the same time in this process (stub runners only:
+// the stubs are stateless decoders of the sample, so one installation serves all callers) and
+// returns, per scenario, the verdict and the decision rule's verdict for its own matrix.
+func runConcurrentGroup(scs []Scn) []Res {
+	names := itemNames()
+	log := mon.NewLog(mon.DelayPlan{})
+	mon.Install(log, true)
+	defer mon.RestoreRegistry()
+	out := make([]Res, len(scs))
+	var wg sync.WaitGroup
+	start := make(chan struct{})
+	for i := range scs {
+		wg.Add(1)
+		go func(i int) {
+			defer wg.Done()
+			sc := scs[i]
+			w := workflows[sc.WF]
+			stream := sc.Stream.build(w.S*w.B, w.B)
+			var seq int64
+			rd := mon.NewReader(stream, sc.Chunk, nil, sc.Delay, &seq)
+			rd.MaxEvents = 0
+			res := Res{ID: sc.ID, NumCPU: runtime.NumCPU(), RegistryOK: true}
+			<-start
+			var verdict bool
+			var err error
+			pan := panicValue(func() { verdict, err = w.Fn(rd) })
+			if pan != nil {
+				res.Status = "panic"
+				res.Crash = fmt.Sprint(pan)
+			} else {
+				res.Status = "returned"
+			}
+			res.Verdict = verdict
+			if err != nil {
+				res.HasErr = true
+				res.Err = err.Error()
+			}
+			res.RunCalls = 1
+			if sc.Stream.Kind == "matrix" && len(sc.Stream.Matrix) == w.S {
+				res.ModelKnown = true
+				res.ModelOK, res.ModelBad, res.ModelAmbig = decide(sc.Stream.Matrix, w.Items, names)
+			}
+			out[i] = res
+		}(i)
+	}
+	close(start)
+	wg.Wait()
+	return out
+}
+
+func init() {
+	childKinds["wfconc"] = func(args []string) int {
+		if len(args) < 2 {
+			return 2
+		}
+		in, err := os.ReadFile(args[0])
+		if err != nil {
+			return 2
+		}
+		outF, err := os.OpenFile(args[1], os.O_CREATE|os.O_WRONLY|os.O_APPEND, 0o644)
+		if err != nil {
+			return 2
+		}
+		if dn, err := os.OpenFile(os.DevNull, os.O_WRONLY, 0); err == nil {
+			os.Stdout = dn
+		}
+		for _, line := range bytes.Split(in, []byte("\n")) {
+			if len(bytes.TrimSpace(line)) == 0 {
+				continue
+			}
+			var group []Scn
+			if err := json.Unmarshal(line, &group); err != nil {
+				return 2
+			}
+			for _, r := range runConcurrentGroup(group) {
+				b, _ := json.Marshal(r)
+				fmt.Fprintf(outF, "END %d %s\n", r.ID, b)
+			}
+		}
+		outF.Close()
+		return 0
+	}
+}
+
+// runConcGroups runs groups of scenarios (each group concurrently inside one child process).
+func runConcGroups(groups [][]Scn, label string, race bool) map[int]*Res {
+	out := map[int]*Res{}
+	work := os.Getenv("VERIF_WORK")
+	bin := os.Getenv("VERIF_BIN")
+	if race {
+		bin = os.Getenv("VERIF_BIN_RACE")
+	}
+	if bin == "" || len(groups) == 0 {
+		return out
+	}
+	inF := filepath.Join(work, label+".in")
+	outF := filepath.Join(work, label+".out")
+	var buf bytes.Buffer
+	for _, g := range groups {
+		b, _ := json.Marshal(g)
+		buf.Write(b)
+		buf.WriteByte('\n')
+	}
+	_ = os.WriteFile(inF, buf.Bytes(), 0o644)
+	os.Remove(outF)
+	cmd := exec.Command(bin, "child", "wfconc", inF, outF)
+	cmd.Env = append(os.Environ(), "GOTRACEBACK=all")
+	if race {
+		cmd.Env = append(cmd.Env, "GORACE=halt_on_error=0 log_path="+filepath.Join(work, "race-"+label))
+	}
+	done := make(chan error, 1)
+	if err := cmd.Start(); err != nil {
+		return out
+	}
+	go func() { done <- cmd.Wait() }()
+	select {
+	case <-done:
+	case <-time.After(20 * time.Minute):
+		_ = cmd.Process.Kill()
+		<-done
+	}
+	if f, err := os.Open(outF); err == nil {
+		sc := bufio.NewScanner(f)
+		sc.Buffer(make([]byte, 1<<20), 1<<26)
+		for sc.Scan() {
+			line := sc.Text()
+			if i := strings.Index(line, "{"); i > 0 && strings.HasPrefix(line, "END ") {
+				var r Res
+				if json.Unmarshal([]byte(line[i:]), &r) == nil {
+					rr := r
+					out[r.ID] = &rr
+				}
+			}
+		}
+		f.Close()
+	}
+	os.Remove(inF)
+	os.Remove(outF)
+	return out
+}
